@@ -6,6 +6,7 @@ import (
 	"flag"
 	"fmt"
 	"os"
+	"path/filepath"
 	"runtime/debug"
 	"strconv"
 	"strings"
@@ -28,7 +29,10 @@ func main() {
 	list := flag.Bool("list", false, "list implemented properties")
 	explain := flag.String("explain", "", "print a violations file")
 	dump := flag.String("dump", "", "debug: print SSA of pkg:Type.method or pkg:func (with anonymous functions)")
+	genAnchors := flag.Bool("gen-anchors", false, "record the fingerprints of every anchor the property's rules resolve into <tables>/anchors.json (run on the reference tree)")
 	flag.Parse()
+	model.AnchorsPath = filepath.Join(*tables, "anchors.json")
+	model.RecordAnchors = *genAnchors
 	if *list {
 		for _, id := range rules.IDs() {
 			fmt.Println(id)
@@ -75,7 +79,14 @@ func main() {
 		fmt.Fprintf(os.Stderr, "UNDECIDED: no rules for property %q\n", *prop)
 		os.Exit(2)
 	}
-	os.Exit(run(*prop, *tier, *repo, *out, *tables, *variants, *seed, f))
+	code := run(*prop, *tier, *repo, *out, *tables, *variants, *seed, f)
+	if *genAnchors {
+		if err := model.SaveAnchors(model.AnchorsPath); err != nil {
+			fmt.Fprintln(os.Stderr, err)
+			os.Exit(2)
+		}
+	}
+	os.Exit(code)
 }
 
 func run(prop, tier, repo, out, tables, variants string, seed int, f rules.PropFunc) (code int) {
@@ -97,7 +108,15 @@ func run(prop, tier, repo, out, tables, variants string, seed int, f rules.PropF
 	res := report.New(prop, tier, seed)
 	p := model.Load(repo)
 	res.Count("packages_loaded", len(p.Pkgs))
+	res.AllFuncs = map[string]bool{}
+	for _, fn := range p.AllFuncs() {
+		res.AllFuncs[model.FnName(fn)] = true
+	}
 	f(p, res)
+	for _, rn := range model.Renamed {
+		fmt.Printf("ANCHOR-RENAMED %s\n", rn)
+	}
+	res.Count("anchors_resolved_by_fingerprint", len(model.Renamed))
 	if tier == "thorough" {
 		res.Rule("THOROUGH", "the property's rules also hold on the program as built for GOOS=windows and for GOARCH=386 (build-tagged files, other word size)")
 		res.Rule("AUDIT", "mutation audit of the checker: each one-hunk variant kept under selftest/variants for this property is applied to a scratch copy of the tree and must be reported; behaviour-preserving ok_ variants must stay silent (informational: it validates the check, it is not a verdict on the tree)")
